@@ -187,6 +187,7 @@ type harnessState struct {
 
 	scratch    []tea.Cmd
 	dropped    map[string]int
+	passed  map[string]int
 	cmdCache   map[*pCmdSpec]tea.Cmd
 	lastKey    atomic.Value // key of the message of the most recent Update
 	afterFired int32
@@ -200,7 +201,7 @@ func newHarnessState(sc *pScenario) *harnessState {
 		paused: map[string]int{}, permits: map[string]int{}, open: map[string]bool{},
 		gates: map[string]chan struct{}{}, sendDone: make([]bool, len(sc.Senders)),
 		forever:    make(chan struct{}),
-		filterDrop: map[string]bool{}, filterPause: map[string]bool{}, filterPanic: map[string]bool{}, dropped: map[string]int{}, cmdCache: map[*pCmdSpec]tea.Cmd{},
+		filterDrop: map[string]bool{}, filterPause: map[string]bool{}, filterPanic: map[string]bool{}, dropped: map[string]int{}, passed: map[string]int{}, cmdCache: map[*pCmdSpec]tea.Cmd{},
 	}
 	if f := sc.Opts.Filter; f != nil {
 		for _, k := range f.Drop {
@@ -724,6 +725,19 @@ func (h *harnessState) filter(m tea.Model, msg tea.Msg) tea.Msg {
 			if n, ok := f.DropFirst[k]; ok && h.dropped[k] < n {
 				h.dropped[k]++
 				dropFirst = true
+				break
+			}
+		}
+		h.mu.Unlock()
+	}
+	if f.DropAfter != nil {
+		h.mu.Lock()
+		for _, k := range pKeyAliases(key) {
+			if n, ok := f.DropAfter[k]; ok {
+				h.passed[k]++
+				if h.passed[k] > n {
+					dropFirst = true
+				}
 				break
 			}
 		}
